@@ -132,13 +132,13 @@ func init() {
 				}
 				return "ERR missing=" + strings.Join(miss, ",")
 			}
-			e := cl.VerifConfig()
+			e := effectiveConfig(cl)
 			ck := "?"
 			if b, ok := e.UseChecksum.(bool); ok {
 				ck = b01(b)
 			}
 			// where connect() will dial: host part in hex, port in decimal
-			dial := cl.VerifDialAddress()
+			dial := dialAddress(cl)
 			if i := strings.LastIndex(dial, ":"); i >= 0 {
 				dial = hx([]byte(dial[:i])) + ":" + dial[i+1:]
 			}
